@@ -113,7 +113,7 @@ Table {S}.{T} as {A} {{
   {C} {ES}.{E} [ref: > {S}.{T}.{C2}]
   {C2} {TY}
   indexes {{
-    {C}
+    {C} [type: hash] // serves 90% of the lookups (%s, %d, %(x)s, {{0}})
     ({C2}, {C}) [name: 'x']
   }}
 }}
@@ -141,7 +141,7 @@ AWKWARD = ['"a.b"', '"a.b.c"', '"{"', '"}"', '"{x}"', '" "', '""', '"."', '".."'
            '"(usd"', '"("', '")"', '"a)"', '"(a, b"']
 RAW_ALPHA = ['a', ' ', '\n', "'", '"', '\\', '`', '{', '}', '%', '\t', '\r']
 TEXT_SITES = ["Table t {\n  id int [note: @L@]\n}\n", "Table t {\n  id int\n  Note: @L@\n}\n", "Table t {\n  id int [default: @L@]\n}\n",
-              "Note n {\n  @L@\n}\n", "Project p {\n  k: @L@\n  Note: @L@\n}\n", "Table t {\n  id int\n  indexes {\n    id [name: @L@, note: @L@]\n  }\n}\n",
+              "Note n {\n  @L@\n}\n", "Project p {\n  k: @L@\n  Note: @L@\n}\n", "Table t {\n  id int\n  indexes {\n    id [name: @L@, note: @L@, type: btree]\n  }\n}\n",
               "Enum e {\n  a [note: @L@]\n}\n", "Table t {\n  id int [k: @L@]\n  k2: @L@\n}\n", "Table t {\n  id int\n}\nTableGroup g [note: @L@] {\n  t\n}\nRef: t.id > t.id // @L@\n"]
 _TOK = re.compile(r"'''(?:.|\n)*?'''|'(?:[^'\\\n]|\\.)*'|\"[^\"\n]*\"|`[^`]*`|//[^\n]*|[A-Za-z0-9_#]+|\n|[^\sA-Za-z0-9_]")
 
